@@ -8,6 +8,7 @@ import E2P.Generated.Grammar
 import Mathlib.Data.List.Basic
 import E2P.Model.Lex
 import E2P.Lemmas.LexCover
+import E2P.Lemmas.LexWs
 namespace E2P.C05
 open E2P
 
@@ -371,6 +372,16 @@ theorem separators_one_class :
     drops a part of the formula" (the parser-level half is `yield_exact`). -/
 theorem lexer_drops_nothing (tbl : List (String × Lex.Scanner)) (s : List Char) (toks : List Tok) (h : Lex.lex tbl s = .ok toks) :
     Lex.Covers toks (Lex.strip s) := Lex.lex_covers tbl s toks h
+
+/-- whitespace before the first token and after the last one never changes what the lexer returns (any table, any text) -/
+theorem whitespace_around_formula (tbl : List (String × Lex.Scanner)) (ws1 s ws2 : List Char)
+    (h1 : ∀ c ∈ ws1, Lex.isWs c = true) (h2 : ∀ c ∈ ws2, Lex.isWs c = true) : Lex.lex tbl (ws1 ++ s ++ ws2) = Lex.lex tbl s :=
+  Lex.lex_outer_ws tbl ws1 s ws2 h1 h2
+
+/-- whitespace in front of the text at which the loop stands — i.e. between the token just taken and the next one — is
+    skipped before any class is tried (`lex_ws_partial`: that the PREVIOUS token's lookahead is indifferent to it is a law on the real code) -/
+theorem whitespace_before_token (tbl : List (String × Lex.Scanner)) (n : Nat) (ws s : List Char) (h : ∀ c ∈ ws, Lex.isWs c = true) :
+    Lex.lexLoop tbl n (ws ++ s) = Lex.lexLoop tbl n s := Lex.lexLoop_skip_ws tbl n ws s h
 
 /-! ### non-vacuity on the grammar of this run -/
 
